@@ -43,6 +43,15 @@ static void ans_hex(const uint8_t *p, size_t n) {
 	for (size_t i = 0; i < n; i++) ans_add("%02x", p[i]);
 }
 static void ans_flush(void) { if (anslen) (void)!write(1, ansbuf, anslen); anslen = 0; }
+/* a note is a line starting with '@' written immediately; the parent keeps the notes of a case only
+ * when that case crashes (they say which block lives where and how far the case got) */
+static void note(const char *fmt, ...) {
+	char b[512]; va_list ap; va_start(ap, fmt);
+	int n = vsnprintf(b + 1, sizeof(b) - 2, fmt, ap); va_end(ap);
+	if (n < 0) return; if ((size_t)n > sizeof(b) - 3) n = (int)sizeof(b) - 3;
+	b[0] = '@'; b[n + 1] = '\n';
+	(void)!write(2, b, (size_t)n + 2);
+}
 #define printf ans_add
 
 /* ------------------------------------------------------------------ exact-size blocks */
@@ -59,6 +68,7 @@ static void xb_alloc(xb_t *b, size_t n, char place, const char *name) {
 	else if (place == 'l') { b->g = vh_gbuf_lo(n); b->p = b->g.p; }
 	else b->p = vh_buf(n);
 	xb_reg(b);
+	note("buf %s %p %zu", name, (void*)b->p, n);
 }
 static void xb_hex(xb_t *b, const char *hex, char place, const char *name) {
 	size_t n = (hex[0] == '-' && hex[1] == 0) ? 0 : strlen(hex) / 2;
@@ -99,12 +109,16 @@ static void c12_install(void) {
 	struct sigaction sa; memset(&sa, 0, sizeof(sa));
 	sa.sa_sigaction = c12_fault; sa.sa_flags = SA_SIGINFO;
 	sigaction(SIGSEGV, &sa, NULL); sigaction(SIGBUS, &sa, NULL); sigaction(SIGFPE, &sa, NULL);
-	sigaction(SIGALRM, &sa, NULL);
+	sigaction(SIGALRM, &sa, NULL); sigaction(SIGVTALRM, &sa, NULL);
 	setvbuf(stdout, NULL, _IOLBF, 0);
 }
+/* watchdog on the CPU time of the worker (robust on a loaded machine: these functions never block),
+ * with a generous wall-clock backstop */
 static void watchdog_ms(long ms) {
 	struct itimerval it; memset(&it, 0, sizeof(it));
 	it.it_value.tv_sec = ms / 1000; it.it_value.tv_usec = (ms % 1000) * 1000;
+	setitimer(ITIMER_VIRTUAL, &it, NULL);
+	memset(&it, 0, sizeof(it)); it.it_value.tv_sec = ms ? 20 + ms / 1000 : 0;
 	setitimer(ITIMER_REAL, &it, NULL);
 }
 
@@ -114,6 +128,7 @@ static void watchdog_ms(long ms) {
 /* ------------------------------------------------------------------ sized calls */
 typedef int (*sized_fn)(const uint8_t*, size_t, uint8_t*, size_t, size_t*);
 static int aux_int; /* extra argument (auto_out_size) for the hex functions */
+static int want_reinvoke; /* the case line ends with the token R: call again with exactly the reported size */
 static int w_b2h(const uint8_t *s, size_t n, uint8_t *d, size_t c, size_t *r) { return cvt_bin2hex(s, n, aux_int, d, c, r); }
 static int w_h2b(const uint8_t *s, size_t n, uint8_t *d, size_t c, size_t *r) { return cvt_hex2bin(s, n, aux_int, d, c, r); }
 
@@ -124,7 +139,8 @@ static void do_sized(const char *op, sized_fn fn, const char *hex, size_t cap, c
 	rc = fn(in.p, in.n, out.p, cap, &rep);
 	printf("%s rc=%d n=%zd", op, rc, (ssize_t)rep);
 	xb_free(&out);
-	if (rc != 0 && rep != NOREP && rep <= MAXREINVOKE) {
+	if (want_reinvoke && rc != 0 && rep != NOREP && rep <= MAXREINVOKE) {
+		note("reinvoke %zu", rep);
 		xb_alloc(&out, rep, place, "out@reported");
 		/* decode_fmt consumes nothing from `in`; all functions take const input */
 		rc2 = fn(in.p, in.n, out.p, rep, &rep2);
@@ -156,7 +172,8 @@ static void do_n2s(const char *ty, const char *txt, size_t cap, char place) {
 	rcu = n2s_call(ty, 1, txt, out.p, cap, &repu);
 	xb_free(&out);
 	printf("n2s rc=%d n=%zd rcu=%d nu=%zd nul=%d", rc, (ssize_t)rep, rcu, (ssize_t)repu, nul);
-	if (rc != 0 && rep != NOREP && rep <= MAXREINVOKE) {
+	if (want_reinvoke && rc != 0 && rep != NOREP && rep <= MAXREINVOKE) {
+		note("reinvoke %zu", rep);
 		xb_alloc(&out, rep, place, "out@reported");
 		rc2 = n2s_call(ty, 0, txt, out.p, rep, &rep2);
 		printf(" rc2=%d n2=%zd", rc2, (ssize_t)rep2);
@@ -295,7 +312,7 @@ static void do_xml(const char *hex, const char *path, int ns, char place) {
 }
 static void do_xmlcnt(const char *hex, char place) {
 	xb_t in; xb_hex(&in, hex, place, "in");
-	watchdog_ms(400); /* the function needs microseconds; not returning = non-termination */
+	watchdog_ms(60); /* 60 ms of CPU; the function needs microseconds: not returning = non-termination */
 	size_t c = xml_calc_tag_count_args(in.p, in.n, (const uint8_t*)"a", NULL);
 	watchdog_ms(0);
 	printf("xmlcnt rc=0 n=%zu\n", c);
@@ -434,7 +451,8 @@ static void do_crc(const char *hex, char place) {
 
 static void run_case(char **tok, int nt) {
 	const char *op = tok[0]; char pl = tok[1][0];
-	watchdog_ms(4000);
+	want_reinvoke = (nt > 2 && !strcmp(tok[nt - 1], "R")); if (want_reinvoke) nt--;
+	watchdog_ms(2000);
 #define ARG(i) ((i) < nt ? tok[i] : "-")
 #define NUM(i) ((size_t)strtoull(ARG(i), NULL, 10))
 	if (!strcmp(op, "b64enc")) do_sized(op, base64_encode, ARG(2), NUM(3), pl);
@@ -509,8 +527,8 @@ int main(int argc, char **argv) {
 		FILE *in = fdopen(pfd[0], "r");
 		static char ln[1 << 16], raw[1 << 15]; size_t rawlen = 0; int crashed = 0;
 		while (fgets(ln, sizeof(ln), in)) {
-			if (!crashed && i < ncases && is_answer(ln, cases[i]) && ln[strlen(ln) - 1] == '\n') { fputs(ln, stdout); i++; continue; }
-			crashed = 1;
+			if (!crashed && i < ncases && is_answer(ln, cases[i]) && ln[strlen(ln) - 1] == '\n') { fputs(ln, stdout); i++; rawlen = 0; continue; }
+			if (ln[0] != '@') crashed = 1;
 			for (char *p = ln; *p && rawlen < sizeof(raw) - 1; p++) raw[rawlen++] = (*p == '\n' || *p == '\r') ? 0x1f : *p;
 		}
 		fclose(in);
